@@ -138,22 +138,19 @@ static struct
   void
   show (mpz_class const &v, std::ostream &o, brevity brv) const override
   {
-    assert (v >= 0);
-
-    uint64_t ui = v.uval ();
     static_assert (sizeof (value_type) == 1,
 		   "assuming value_type is 8 bits large");
-    if (ui <= 0xff)
-      {
-	char const *name = find_vtype_name (ui);
-	assert (name != nullptr);
-	assert (name[0] == 'T' && name[1] == '_');
-	o << (&name[brv == brevity::full ? 0 : 2]);
-	return;
-      }
+    if (! (v < 0) && v.uval () <= 0xff)
+      if (char const *name = find_vtype_name (v.uval ()))
+	{
+	  assert (name[0] == 'T' && name[1] == '_');
+	  o << (&name[brv == brevity::full ? 0 : 2]);
+	  return;
+	}
 
-    assert (! "Invalid slot type constant value.");
-    abort ();
+    // Not a code of any type.  That can be a result of arithmetic on
+    // a type constant (which is warned about, but allowed).
+    o << (brv == brevity::full ? "T_" : "") << "??? (" << v << ")";
   }
 
   char const *name () const override
